@@ -83,6 +83,10 @@ def mk_num(n):
     if form == "mul":       # written as `number * h.prefix.X`
         assert ne >= 0
         return (nm * 10 ** ne) * prefix_of(pe)
+    if form == "dmul":      # a Decimal (of any number of digits) times a prefix
+        return d * prefix_of(pe)
+    if form == "smul":      # a numeric string times a prefix
+        return (f"{nm}e{ne}" if ne else str(nm)) * prefix_of(pe)
     raise ValueError(form)
 
 
